@@ -137,7 +137,3 @@ Theorem built_world_wwf_b fuel patchers specs w :
   prefixes_ok_b [] specs (spec_rank specs) = true -> define_all fuel (world0 patchers) specs = Some w -> wwf w.
 Proof. intros H. apply (built_world_wwf (spec_rank specs)). apply prefixes_ok_b_sound. exact H. Qed.
 
-(* used by the C11 family on every generated scenario: the hypothesis of built_world_wwf_b, and (redundantly, as a cross-check of the
-   theorem by computation) wwf_b / hier_ok_b on every world on the way *)
-Definition run_case_wf (patchers : list (nat * list string)) (classes : list cspec) : bool :=
-  prefixes_ok_b [] classes (spec_rank classes) && forallb checked (all_worlds 40 (world0 patchers) classes).
